@@ -512,8 +512,9 @@ func lemmaHeaderRoundTrip(f *TimeBucketInfo) {
 //@ pure
 
 //@ func (*ColumnSeries).GetColumn
-//@ trusted "map lookup of a column"
+//@ props C20 C13
 //@ pure
+//@ ensures #lookup: (in(name, cs.columns) ==> result == cs.columns[name]) && (!in(name, cs.columns) ==> result == nil)
 
 //@ func CastToByteSlice
 //@ trusted "unsafe/reflect: the bytes of a column"
@@ -592,3 +593,21 @@ func lemmaHeaderRoundTrip(f *TimeBucketInfo) {
 //@ func (*ColumnSeries).ToRowSeries
 //@ props C29
 //@ ensures #stride: err == nil ==> (rs != nil && rs.rows != nil && rs.rows.rowLen == serializedRecLen(base(rs.rows.data)))
+
+// ---------------------------------------------------------------------------------------------
+// C20 / C13: column projection. When every requested column exists, Project leaves exactly the requested columns, in
+// the requested order, each with the data it had.
+//@ func (*ColumnSeries).Project
+//@ props C20 C13
+//@ option noimplicit
+//@ requires #allPresent: forall(k, 0, len(keepList), in(keepList[k], cs.columns) && cs.columns[keepList[k]] != nil)
+//@ loop 0 invariant #idx: 0 <= iter0 && iter0 <= rangelen
+//@ loop 0 invariant #srcKept: cs.columns != newCols && forallstr(n, pattern(cs.columns[n]), in(n, cs.columns) == old(in(n, cs.columns)) && cs.columns[n] == old(cs.columns[n]))
+//@ loop 0 invariant #namesFresh: newNames == nil || base(newNames) >= oldtop()
+//@ loop 0 invariant #listKept: forallint(a, pattern(mem(keepList)[a]), a < oldtop() ==> same(mem(keepList)[a], old(mem(keepList))[a]))
+//@ loop 0 invariant #names: len(newNames) == iter0 && forall(k, 0, iter0, same(newNames[k], keepList[k]))
+//@ loop 0 invariant #cols: forall(k, 0, iter0, in(keepList[k], newCols) && newCols[keepList[k]] == old(cs.columns[keepList[k]]))
+//@ loop 0 invariant #only: forallstr(n, pattern(newCols[n]), in(n, newCols) ==> existsint(k, 0 <= k && k < iter0 && same(n, keepList[k])))
+//@ ensures #order: len(cs.orderedNames) == len(keepList) && forall(k, 0, len(keepList), same(cs.orderedNames[k], keepList[k]))
+//@ ensures #data: forall(k, 0, len(keepList), in(keepList[k], cs.columns) && cs.columns[keepList[k]] == old(cs.columns[keepList[k]]))
+//@ ensures #only: forallstr(n, pattern(cs.columns[n]), in(n, cs.columns) ==> existsint(k, 0 <= k && k < len(keepList) && same(n, keepList[k])))
